@@ -217,7 +217,9 @@ func addstringtotargz(tw *tar.Writer, name string, align string) error {
 	header.Name = name + ext
 	header.Size = int64(len(alignbytes))
 	header.Mode = 436 //int64(stat.Mode())
-	header.ModTime = time.Now()
+	// Fixed modification time: with a given --seed the archive must be
+	// byte-identical from one run to the next
+	header.ModTime = time.Unix(0, 0)
 	// write the header to the tarball archive
 	if err := tw.WriteHeader(header); err != nil {
 		return err
